@@ -587,8 +587,31 @@ def rule_skipped_token_trivia(ck, facts):
             names = {(callee(f.term(b)) or "").split("::")[-1] for b in region if f.term(b)[KIND] == "call"}
             n += 1
             key = "skip|%s|%s" % (f.short.split("::")[-1], v)
-            if names & EMIT:
+            emit_blocks = {b for b in region if f.term(b)[KIND] == "call" and (callee(f.term(b)) or "").split("::")[-1] in EMIT}
+            hdr = stop[1]
+            # a guarded arm (`Comma if in_params => { .. continue }`) shares its entry with the fall-through that prints
+            # the token generically: the blocks that belong to the arm alone (not reachable from the fall-through
+            # target) must not reach the next iteration without reading the token's trivia
+            silent = False
+            other = cov.primary.otherwise
+            if names & EMIT and other is not None and other != tb and other in region:  # guarded arm
+                shared = reachable(f, other, stop=stop)
+                own = region - shared
+                if tb in shared:
+                    # the arm target is the shared test: start from its successors that the fall-through cannot reach
+                    starts = [x for x in f.succs(tb) if x in own]
+                else:
+                    starts = [tb]
+                for st in starts:
+                    seen_ = reachable(f, st, stop=stop, avoid=emit_blocks | shared)
+                    if any(hdr in f.succs(x) or x == hdr for x in seen_ if x in own):
+                        silent = True
+            if names & EMIT and not silent:
                 ck.ok(R, key)
+            elif silent:
+                # must-pass-through: a guarded arm (`Comma if in_params => { .. continue }`) shares its entry with the
+                # fall-through that prints the token; the guarded alternative itself must read the trivia too
+                ck.bad(R, key + "|guarded", "%s: one alternative of the arm for a %s token goes on to the next child without emitting the token through the trivia-aware emitter and without reading its trivia (a guarded arm that swallows the token): a comment attached to that token is not in the output" % (f.short, v), f.where(f.term(tb)))
             else:
                 ck.bad(R, key, "%s consumes a %s token without emitting it through the trivia-aware emitter and without reading its trivia: a comment attached to that token (e.g. written right after it) is not in the output" % (f.short, v), f.where(f.term(tb)))
     ck.floor(R, "token_arms_checked", n, 40)
